@@ -1,0 +1,5 @@
+//go:build !verif
+
+package ttlv
+
+func vp(string, any) {}
